@@ -479,6 +479,12 @@ theorem C39_counterexample_like_underscore :
 theorem C39_counterexample_like_newline :
     likeSpec [37] [97, 10, 98] = some true ∧ likeImpl [37] [97, 10, 98] = some false := by decide
 
+/-- after an escaped backslash a wildcard must still be a wildcard: the implementation looks at the
+single preceding character and takes it literally -/
+theorem C39_counterexample_like_escaped_backslash :
+    likeSpec [92, 92, 37] [92, 97, 98] = some true ∧ likeImpl [92, 92, 37] [92, 97, 98] = some false ∧
+    likeSpec [92, 92, 37] [92, 37] = some true ∧ likeImpl [92, 92, 37] [92, 37] = some true := by decide
+
 /-! ### Agreement on the patterns made of ordinary characters and `%` -/
 
 /-- a character that none of `like_to_regex`, the regex syntax and LIKE treats specially -/
